@@ -4,20 +4,59 @@ import os
 
 VERIF = os.path.dirname(os.path.dirname(os.path.abspath(__file__)))
 
+TIE = ("tied to /repo by running the executable Gallina model (binary64 = Coq primitive floats, "
+       "bit-exact; exact = rationals with IEEE special values) and the implementation on the same "
+       "generated programs on every run, and by evaluating the theorem statements on the "
+       "implementation's own observations")
+
 CHECKS = {
     "C01": ("proof",
             "Coq theorems (exact instance, closed under the global context): + is a commutative "
             "monoid on the well-formed states of a specification, zero its unit, fill a "
             "homomorphism, hence every partition / parenthesisation / order of + gives the "
-            "aggregate of the whole stream; tied to /repo by running the executable model "
-            "(binary64 = PrimFloat, bit-exact) and the implementation on the same generated "
-            "programs, and by evaluating the theorem statement on the implementation's own results",
+            "aggregate of the whole stream; " + TIE,
             "hypotheses of the theorems: weights finite-positive or gated; Average/Deviate leaves "
             "receive finite quantities; no fill raises. Model hand-written, tie sampled; exact "
             "laws decided on exact-safe programs only",
             "section 6 C01"),
+    "C02": ("proof",
+            "Coq theorems (exact instance): order independence of fill, the weight gate and its "
+            "meaning; the independent exact-rational reference semantics (harness/refsem.py) is "
+            "evaluated against the implementation on every exact program; " + TIE,
+            "the reference semantics is a Python transcription of the specification, not (yet) a "
+            "Coq definition; exact laws decided on exact-safe programs only",
+            "section 6 C02"),
+    "C07": ("proof",
+            "Coq theorems for every arithmetic instance: on every pair that + accepts, += yields "
+            "exactly add_t a b and does not raise; += and + accept the same pairs; " + TIE +
+            "; identity of the left operand and absence of leaks are observed on the implementation",
+            "aliasing after += (identity graph) belongs to the Forest layer / C06",
+            "section 6 C07"),
+    "C08": ("proof",
+            "Coq theorems (exact instance): h*f = refill with weights*f, multiplicative, h*1=h, "
+            "h*2=h+h, distributes over +, non-positive/NaN factor gives zero, Count with a "
+            "transform refuses, the product is a well-formed state of the same specification; " + TIE,
+            "finite positive factors; commutation with JSON is checked by C04",
+            "section 6 C08"),
+    "C10": ("proof",
+            "Coq theorems for every arithmetic instance: + returns a result only on compatible "
+            "operands and raises otherwise; += raises whenever + does, and leaves the left operand "
+            "untouched when the mismatch is visible at the top of the operands; the full "
+            "'unchanged' statement is refuted in Coq for nested mismatches (known finding "
+            "C10-iadd-partial); " + TIE,
+            "compatibility of generated pairs is decided by an independent Python transcription "
+            "of the property text",
+            "section 6 C10"),
+    "C12": ("proof",
+            "Coq theorems for every arithmetic instance: a raising fill returns a single-path tree "
+            "unchanged (any depth, both failure modes), a stream with skipped failures equals the "
+            "aggregate of the survivors, and no survivor raises; " + TIE,
+            "faults are injected through quantity functions; collections/Fraction/Stack are outside "
+            "the guarantee as the property says",
+            "section 6 C12"),
 }
 
+ALL = ["C%02d" % i for i in range(1, 18)]
 NOT_APPLICABLE = []
 
 
@@ -54,7 +93,10 @@ def main():
                               "running generated programs on model and implementation",
         }],
         "checks": checks,
-        "not_applicable": NOT_APPLICABLE,
+        "not_applicable": NOT_APPLICABLE + [
+            {"property_id": p, "reason": "check under construction in this session (model layer not built yet); "
+                                         "not claimed until its check exists"}
+            for p in ALL if p not in CHECKS and p not in [x["property_id"] for x in NOT_APPLICABLE]],
         "notes": "see DESIGN.md; known_findings.json lists genuine defects (fixed and open)",
     }
     with open(os.path.join(VERIF, "MANIFEST.json"), "w") as f:
